@@ -1,6 +1,7 @@
 import Driver.Sexp
 import Driver.Util
 import Driver.Life
+import NopModel.Fungible
 open Nop Nop.Driver
 
 structure DState where
@@ -73,6 +74,10 @@ def step (d : DState) (line : String) : DState × Option String :=
       | (.error e', s') =>
         (d, some s!"err {e'.name} {match s'.fault with | .zombie _ => "zombie" | _ => "clean"}")
     | _, _, _, _, _ => (d, some "bad-op")
+  | some [.atom "fung", .atom ta, .atom tb] =>
+    match d.ty? ta, d.ty? tb with
+    | some a, some b => (d, some (if fungible a b then "1" else "0"))
+    | _, _ => (d, some "bad-op")
   | some [.atom "valid", .atom tid, v] =>
     match d.ty? tid, toVal v with
     | some t, some v => (d, some (if valid t v then "valid" else "invalid"))
